@@ -1,5 +1,5 @@
 """./check entry point: build + audit the Lean side, run corpus / correspondence / monitors, decide."""
-import argparse, glob, importlib, json, os, sys, time, traceback
+import argparse, glob, importlib, json, os, signal, sys, time, traceback
 import common
 from common import Outcome, MachineryError
 
@@ -20,6 +20,20 @@ FAMILY_OF = {
 QUICK_BUDGET_S = 900
 
 
+CASE_TIMEOUT = float(os.environ.get('VERIF_CASE_TIMEOUT', '20'))
+
+
+class HangError(Exception):
+    """raised inside an implementation call by the watchdog"""
+
+
+def _on_alarm(signum, frame):
+    raise HangError(f'implementation call exceeded {CASE_TIMEOUT:.0f} s')
+
+
+signal.signal(signal.SIGALRM, _on_alarm)
+
+
 def load_family(prop):
     if prop not in FAMILY_OF:
         raise MachineryError(f'no check registered for {prop}')
@@ -30,7 +44,13 @@ def evaluate(fam, prop, cases):
     """execute cases on the implementation, pipe through the driver, judge.  Returns list[Outcome]."""
     records = []
     for i, c in enumerate(cases):
-        r = fam.execute(prop, c)
+        # watchdog: an implementation call that does not come back within CASE_TIMEOUT seconds is interrupted; the family records
+        # the interrupt like any other exception of the call (class `HangError`), which no property accepts as an outcome
+        signal.setitimer(signal.ITIMER_REAL, CASE_TIMEOUT)
+        try:
+            r = fam.execute(prop, c)
+        finally:
+            signal.setitimer(signal.ITIMER_REAL, 0)
         r['id'] = i
         records.append(r)
     outs = common.run_driver(records) if records else []
@@ -176,7 +196,19 @@ def run(prop, tier, replay):
     cases = [fam.random_case(prop, common.case_rng(seed, i, prop), tier) for i in range(n)]
     if hasattr(fam, 'extra_cases'):
         cases += fam.extra_cases(prop, tier, seed)
-    outcomes = evaluate(fam, prop, cases)
+    outcomes = []
+    t_first_bad = None
+    for k in range(0, len(cases), 100):
+        batch = evaluate(fam, prop, cases[k:k + 100])
+        outcomes += batch
+        bad = sum(1 for o in outcomes if not o.mon_ok and (o.in_domain or not (o.eq and o.sig in sigs)))
+        if bad and t_first_bad is None:
+            t_first_bad = time.time()
+        # a failing run need not finish the stream: 40 failing cases, or 3 minutes after the first one, are enough to report
+        if bad >= 40 or (t_first_bad is not None and time.time() - t_first_bad > 180):
+            say(f'stream stopped after {len(outcomes)} of {len(cases)} cases: {bad} failing cases collected')
+            cases = cases[:len(outcomes)]
+            break
     lines, known_hits, n_mis = decide(prop, fam, couts + outcomes, findings, proof_broken, seed, tier, say)
     violations += lines
 
